@@ -14,6 +14,13 @@ Open Scope N_scope.
 Lemma thin_nil_r l' : thin l' [] -> l' = [].
 Proof. inversion 1; auto. Qed.
 
+Lemma thin_items l' l : thin l' l -> forall it, In it l' -> In it l.
+Proof.
+  induction 1 as [|x l' l H IH|c l' l H IH]; intros it Hi; auto.
+  - destruct Hi as [<-|Hi]; [left; auto|right; auto].
+  - right. auto.
+Qed.
+
 Lemma thin_no_elems l' l : thin l' l -> elems l = [] -> l' = l.
 Proof.
   induction 1 as [|it l' l H IH|c l' l H IH]; intros E; auto.
@@ -142,6 +149,154 @@ Proof.
   rewrite I1, I2. reflexivity.
 Qed.
 
+(* ---------- lengths: the text only gets shorter, strictly when a written element loses its whole content ---------- *)
+Definition Flip (j : id) : Prop :=
+  exists n n', w_nodes w j = Some n /\ w_nodes w' j = Some n' /\ n_content n <> [] /\ n_content n' = [].
+
+Lemma proj_head i j : Proj T w ff i j ->
+  j = i \/ exists n c cn, w_nodes w i = Some n /\ recurses T n /\ In c (kids n) /\ w_nodes w c = Some cn /\
+                          passes ff cn = true /\ Proj T w ff c j.
+Proof.
+  induction 1 as [H|p pn c cn Hp IH Hpn Hrec Hc Hcn Hpass]; [left; reflexivity|]. right.
+  destruct IH as [->|(n & c0 & cn0 & Hn & Hr0 & Hc0 & Hcn0 & Hp0 & Hpr)].
+  - exists pn, c, cn. repeat split; auto. constructor. exists cn; auto.
+  - exists n, c0, cn0. repeat split; auto. eapply Proj_kid; eauto.
+Qed.
+
+Definition LenOK (fl : nat) (c : id) : Prop :=
+  forall indent inline s s', SH fl w' ff c indent inline = Val s' -> SH fl w ff c indent inline = Val s ->
+    (List.length s' <= List.length s)%nat /\ ((exists j, Proj T w ff c j /\ Flip j) -> (List.length s' < List.length s)%nat).
+
+Lemma heap_loops_len fl (IH : forall c, K c -> LenOK fl c) indent : forall l' l, thin l' l -> NoDup (elems l) ->
+  (forall c, In c (elems l) -> ~ In c (elems l') -> exists cn, w_nodes w c = Some cn /\ passes ff cn = false) ->
+  (forall c, In c (elems l') -> exists cn cn', w_nodes w c = Some cn /\ w_nodes w' c = Some cn' /\
+        passes ff cn' = passes ff cn /\ (passes ff cn = true -> K c)) ->
+  let strict := exists c cn j, In c (elems l') /\ w_nodes w c = Some cn /\ passes ff cn = true /\ Proj T w ff c j /\ Flip j in
+  (forall b b', heap_items T tab_el tab_at tab_en float_fmt fl w' ff indent l' = Val b' ->
+                heap_items T tab_el tab_at tab_en float_fmt fl w ff indent l = Val b ->
+                (List.length b' <= List.length b)%nat /\ (strict -> (List.length b' < List.length b)%nat)) /\
+  (forall b b', heap_subs T tab_el tab_at tab_en float_fmt fl w' ff indent l' = Val b' ->
+                heap_subs T tab_el tab_at tab_en float_fmt fl w ff indent l = Val b ->
+                (List.length b' <= List.length b)%nat /\ (strict -> (List.length b' < List.length b)%nat)).
+Proof.
+  induction 1 as [|it l' l H IHl|c l' l H IHl]; intros ND H1 H2 strict.
+  - split; intros b b' [= <-] [= <-]; (split; [auto|]); intros (c & cn & j & [] & _).
+  - destruct it as [c|d]; cbn [heap_items heap_subs elems flat_map app] in *.
+    + apply NoDup_cons_iff in ND as (Hc & ND).
+      destruct (H2 c (or_introl eq_refl)) as (cn & cn' & Hcn & Hcn' & Hp & Hk).
+      destruct IHl as (I1 & I2); auto.
+      { intros c0 Hc0 Hn0. apply H1; [right; auto|]. intros [<-|Hi]; contradiction. }
+      { intros c0 Hc0. apply H2. right. auto. }
+      fold (heap_items T tab_el tab_at tab_en float_fmt fl w' ff indent) (heap_items T tab_el tab_at tab_en float_fmt fl w ff indent)
+           (heap_subs T tab_el tab_at tab_en float_fmt fl w' ff indent) (heap_subs T tab_el tab_at tab_en float_fmt fl w ff indent).
+      rewrite Hcn, Hcn', Hp. destruct (passes ff cn) eqn:Ep.
+      * fold SH.
+        split; intros b b' Hb' Hb.
+        -- destruct (SH fl w' ff c (S indent) true) as [a'| |] eqn:Ea'; cbn [bind] in Hb'; try discriminate.
+           destruct (heap_items T tab_el tab_at tab_en float_fmt fl w' ff indent l') as [r'| |] eqn:Er'; cbn [bind] in Hb'; try discriminate.
+           destruct (SH fl w ff c (S indent) true) as [a| |] eqn:Ea; cbn [bind] in Hb; try discriminate.
+           destruct (heap_items T tab_el tab_at tab_en float_fmt fl w ff indent l) as [r0| |] eqn:Er; cbn [bind] in Hb; try discriminate.
+           injection Hb' as <-. injection Hb as <-. rewrite !app_length.
+           destruct (IH c (Hk eq_refl) _ _ _ _ Ea' Ea) as (A1 & A2). destruct (I1 _ _ eq_refl eq_refl) as (B1 & B2).
+           split; [lia|]. intros (c0 & cn0 & j & [<-|Hc0] & Hcn0 & Hp0 & Hpr & Hf).
+           ++ assert ((List.length a' < List.length a)%nat) by (apply A2; eauto). lia.
+           ++ assert ((List.length r' < List.length r0)%nat) by (apply B2; exists c0, cn0, j; auto). lia.
+        -- destruct (SH fl w' ff c (S indent) false) as [a'| |] eqn:Ea'; cbn [bind] in Hb'; try discriminate.
+           destruct (heap_subs T tab_el tab_at tab_en float_fmt fl w' ff indent l') as [r'| |] eqn:Er'; cbn [bind] in Hb'; try discriminate.
+           destruct (SH fl w ff c (S indent) false) as [a| |] eqn:Ea; cbn [bind] in Hb; try discriminate.
+           destruct (heap_subs T tab_el tab_at tab_en float_fmt fl w ff indent l) as [r0| |] eqn:Er; cbn [bind] in Hb; try discriminate.
+           injection Hb' as <-. injection Hb as <-. rewrite !app_length.
+           destruct (IH c (Hk eq_refl) _ _ _ _ Ea' Ea) as (A1 & A2). destruct (I2 _ _ eq_refl eq_refl) as (B1 & B2).
+           split; [lia|]. intros (c0 & cn0 & j & [<-|Hc0] & Hcn0 & Hp0 & Hpr & Hf).
+           ++ assert ((List.length a' < List.length a)%nat) by (apply A2; eauto). lia.
+           ++ assert ((List.length r' < List.length r0)%nat) by (apply B2; exists c0, cn0, j; auto). lia.
+      * split; intros b b' Hb' Hb.
+        -- destruct (I1 _ _ Hb' Hb) as (B1 & B2). split; auto.
+           intros (c0 & cn0 & j & [<-|Hc0] & Hcn0 & Hp0 & Hpr & Hf); [congruence|]. apply B2. exists c0, cn0, j. auto.
+        -- destruct (I2 _ _ Hb' Hb) as (B1 & B2). split; auto.
+           intros (c0 & cn0 & j & [<-|Hc0] & Hcn0 & Hp0 & Hpr & Hf); [congruence|]. apply B2. exists c0, cn0, j. auto.
+    + destruct (IHl ND H1 H2) as (I1 & I2).
+      fold (heap_items T tab_el tab_at tab_en float_fmt fl w' ff indent) (heap_items T tab_el tab_at tab_en float_fmt fl w ff indent)
+           (heap_subs T tab_el tab_at tab_en float_fmt fl w' ff indent) (heap_subs T tab_el tab_at tab_en float_fmt fl w ff indent).
+      split; intros b b' Hb' Hb; [|apply I2; auto].
+      destruct (ser_cd tab_en float_fmt d) as [a| |]; cbn [bind] in Hb', Hb; try discriminate.
+      destruct (heap_items T tab_el tab_at tab_en float_fmt fl w' ff indent l') as [r'| |] eqn:Er'; cbn [bind] in Hb'; try discriminate.
+      destruct (heap_items T tab_el tab_at tab_en float_fmt fl w ff indent l) as [r0| |] eqn:Er; cbn [bind] in Hb; try discriminate.
+      injection Hb' as <-. injection Hb as <-. rewrite !app_length. destruct (I1 _ _ eq_refl eq_refl) as (B1 & B2).
+      split; [lia|]. intros Hs. assert ((List.length r' < List.length r0)%nat) by (apply B2; exact Hs). lia.
+  - cbn [heap_items heap_subs elems flat_map app] in *. apply NoDup_cons_iff in ND as (Hc & ND).
+    assert (~ In c (elems l')) as Hnc by (intros Hi; apply Hc; eapply thin_incl; eauto).
+    destruct (H1 c (or_introl eq_refl) Hnc) as (cn & Hcn & Hp). rewrite Hcn, Hp.
+    fold (heap_items T tab_el tab_at tab_en float_fmt fl w ff indent) (heap_subs T tab_el tab_at tab_en float_fmt fl w ff indent).
+    apply IHl; auto. intros c0 Hc0 Hn0. apply H1; auto. right. auto.
+Qed.
+
+Theorem ser_heap_len :
+  (forall n, recurses T n -> R n) -> CharsLeaf T w ->
+  forall fuel i, K i -> LenOK fuel i.
+Proof.
+  intros HR CL. induction fuel as [|fl IH]; intros i Hi indent inline s s' Hs' Hs; [discriminate|].
+  unfold SH in Hs', Hs. rewrite ser_heap_unfold in Hs', Hs.
+  destruct (HK i Hi) as (n & n' & Hn & Hn' & Nm & Ty & At & Cm & Th & ND & H1 & H2).
+  rewrite Hn' in Hs'. rewrite Hn in Hs. rewrite Nm, Cm, At, Ty in Hs'.
+  destruct (unwrap _ (to_str tab_el (n_name n))) as [nm| |]; cbn [bind] in Hs', Hs; try discriminate.
+  set (pre := Serializer.comment_part (n_comment n) indent inline ++ (if inline then [] else Serializer.newline_indent indent)) in *.
+  assert (forall j, Proj T w ff i j -> Flip j -> j = i \/
+            exists c cn, In c (kids n) /\ recurses T n /\ w_nodes w c = Some cn /\ passes ff cn = true /\ Proj T w ff c j) as Head.
+  { intros j Hp _. destruct (proj_head i j Hp) as [->|(n0 & c & cn & Hn0 & Hr0 & Hc & Hcn & Hpass & Hpr)]; auto.
+    right. assert (n0 = n) by congruence. subst n0. exists c, cn. auto. }
+  destruct (n_content n) as [|first rest] eqn:Ec.
+  { apply thin_nil_r in Th. rewrite Th in Hs'. rewrite Hs in Hs'. injection Hs' as <-. split; auto.
+    intros (j & Hp & Hf). exfalso. destruct (Head j Hp Hf) as [->|(c & cn & Hc & _)].
+    - destruct Hf as (n0 & n0' & Hn0 & _ & Hne & _). assert (n0 = n) by congruence. subst n0. congruence.
+    - unfold kids in Hc. rewrite Ec in Hc. destruct Hc. }
+  destruct (ser_ats tab_at tab_en float_fmt (n_attrs n)) as [ats| |]; cbn [bind] in Hs', Hs; try discriminate.
+  destruct (content_mode T (n_type n)) as [mode| |] eqn:Em; cbn [bind] in Hs.
+  2:{ discriminate. } 2:{ discriminate. }
+  destruct (n_content n') as [|first' rest'] eqn:Ec'.
+  { (* i itself lost its whole content *)
+    injection Hs' as <-.
+    assert (Nat.lt (List.length (pre ++ [60] ++ nm ++ ats ++ [47; 62])) (List.length s)) as Hlt.
+    { unfold Nat.lt. cbv zeta in Hs. clearbody pre. destruct (mode =? MCharacters).
+      - destruct (match first with CData d => ser_cd tab_en float_fmt d | CElem _ => Val [] end) as [body| |]; cbn [bind] in Hs; try discriminate.
+        injection Hs as <-. repeat (first [rewrite app_length | progress cbn [List.length app]]). lia.
+      - destruct (mode =? MMixed).
+        + destruct (heap_items T tab_el tab_at tab_en float_fmt fl w ff indent (first :: rest)) as [body| |]; cbn [bind] in Hs; try discriminate.
+          injection Hs as <-. repeat (first [rewrite app_length | progress cbn [List.length app]]). lia.
+        + destruct (heap_subs T tab_el tab_at tab_en float_fmt fl w ff indent (first :: rest)) as [body| |]; cbn [bind] in Hs; try discriminate.
+          injection Hs as <-. repeat (first [rewrite app_length | progress cbn [List.length app]]). lia. }
+    split; [apply Nat.lt_le_incl; exact Hlt|]. intros _. exact Hlt. }
+  cbn [bind] in Hs'.
+  destruct (mode =? MCharacters) eqn:Ech.
+  { pose proof (CL i n mode Hn Em Ech) as Hk0. unfold kids in Hk0. rewrite Ec in Hk0.
+    pose proof (thin_no_elems _ _ Th Hk0) as E. injection E as -> ->. rewrite Hs in Hs'. injection Hs' as <-. split; auto.
+    intros (j & Hp & Hf). exfalso. destruct (Head j Hp Hf) as [->|(c & cn & Hc & _)].
+    - destruct Hf as (n0 & n0' & Hn0 & Hn0' & _ & He). assert (n0' = n') by congruence. subst n0'. congruence.
+    - unfold kids in Hc. rewrite Ec, Hk0 in Hc. destruct Hc. }
+  assert (R n) as HRn by (apply HR; exists mode; auto).
+  destruct (heap_loops_len fl IH indent _ _ Th) as (I1 & I2).
+  { unfold kids in ND. rewrite Ec in ND. exact ND. }
+  { unfold kids in H1. rewrite Ec, Ec' in H1. exact H1. }
+  { intros c Hc. unfold kids in H2. rewrite Ec' in H2. destruct (H2 c Hc) as (cn & cn' & A & B & Cc & D).
+    exists cn, cn'. repeat split; auto. }
+  assert (forall j, Proj T w ff i j -> Flip j ->
+            exists c cn j0, In c (elems (first' :: rest')) /\ w_nodes w c = Some cn /\ passes ff cn = true /\ Proj T w ff c j0 /\ Flip j0) as Strict.
+  { intros j Hp Hf. destruct (Head j Hp Hf) as [->|(c & cn & Hc & _ & Hcn & Hpass & Hpr)].
+    - exfalso. destruct Hf as (n0 & n0' & Hn0 & Hn0' & _ & He). assert (n0' = n') by congruence. subst n0'. congruence.
+    - exists c, cn, j. repeat split; auto.
+      destruct (in_dec N.eq_dec c (kids n')) as [Hci|Hni]; [unfold kids in Hci; rewrite Ec' in Hci; exact Hci|].
+      exfalso. destruct (H1 c Hc Hni) as (cn0 & Hcn0 & Hp0). congruence. }
+  destruct (mode =? MMixed).
+  - destruct (heap_items T tab_el tab_at tab_en float_fmt fl w' ff indent (first' :: rest')) as [b'| |] eqn:Eb'; cbn [bind] in Hs'; try discriminate.
+    destruct (heap_items T tab_el tab_at tab_en float_fmt fl w ff indent (first :: rest)) as [b| |] eqn:Eb; cbn [bind] in Hs; try discriminate.
+    injection Hs' as <-. injection Hs as <-. destruct (I1 b b' eq_refl eq_refl) as (B1 & B2). clearbody pre. repeat (first [rewrite app_length | progress cbn [List.length app]]). split; [lia|].
+    intros (j & Hp & Hf). assert ((List.length b' < List.length b)%nat) by (apply B2; eapply Strict; eauto). lia.
+  - destruct (heap_subs T tab_el tab_at tab_en float_fmt fl w' ff indent (first' :: rest')) as [b'| |] eqn:Eb'; cbn [bind] in Hs'; try discriminate.
+    destruct (heap_subs T tab_el tab_at tab_en float_fmt fl w ff indent (first :: rest)) as [b| |] eqn:Eb; cbn [bind] in Hs; try discriminate.
+    injection Hs' as <-. injection Hs as <-. destruct (I2 b b' eq_refl eq_refl) as (B1 & B2). clearbody pre. repeat (first [rewrite app_length | progress cbn [List.length app]]). split; [lia|].
+    intros (j & Hp & Hf). assert ((List.length b' < List.length b)%nat) by (apply B2; eapply Strict; eauto). lia.
+Qed.
+
 End Sim.
 
 (* ====================================================================== remove_file and the other files *)
@@ -235,6 +390,22 @@ Proof.
   - split; auto. constructor. destruct (root_node _ _ C Hxin) as (rn & k & Hrn & _). exists rn; auto.
 Qed.
 
+(* the simulation on the elements written for g *)
+Lemma proj_node_sim : Attributed w (m_root x) g ->
+  forall i, Proj T w (Some g) (m_root x) i ->
+  exists n n', w_nodes w i = Some n /\ w_nodes w' i = Some n' /\
+    node_sim w w' (Some g) (fun i => Proj T w (Some g) (m_root x) i) (recurses T) n n'.
+Proof.
+  intros Hroot i Hp. pose proof TI as (C & _).
+  assert (In x (w_models w)) as Hxin by (unfold model_b in Hmx; rewrite nth_opt_error in Hmx; eapply nth_error_In; eauto).
+  assert (Reach w (m_root x) i) as Hri by (eapply proj_reach; eauto).
+  assert (Attributed w i g) as Hai by (eapply proj_attributed; eauto).
+  destruct (remove_file_node_sim i Hri Hai) as (n & n' & Hn & Hn' & A1 & A2 & A3 & A4 & A5 & A6 & A7 & A8).
+  exists n, n'. split; auto. split; auto. repeat split; auto.
+  intros c Hc. destruct (A8 c Hc) as (cn & cn' & B1 & B2 & B3 & B4). exists cn, cn'. repeat split; auto.
+  intros Ep Hrec. eapply Proj_kid; eauto. eapply thin_incl; eauto.
+Qed.
+
 (* ... and so is its text, as long as no written element of g loses its whole content *)
 Theorem remove_file_other_text tab_el tab_at tab_en float_fmt : Attributed w (m_root x) g ->
   CharsLeaf T w -> KeepsSome T w f g (m_root x) ->
@@ -248,11 +419,7 @@ Proof.
   assert (forall i, Proj T w (Some g) (m_root x) i -> Reach w (m_root x) i /\ Attributed w i g) as PK.
   { intros i Hp. split; [eapply proj_reach; eauto | eapply proj_attributed; eauto]. }
   apply (ser_heap_sim T tab_el tab_at tab_en float_fmt w w' (Some g) (fun i => Proj T w (Some g) (m_root x) i) (recurses T)); auto.
-  - intros i Hp. destruct (PK i Hp) as (Hri & Hai).
-    destruct (remove_file_node_sim i Hri Hai) as (n & n' & Hn & Hn' & A1 & A2 & A3 & A4 & A5 & A6 & A7 & A8).
-    exists n, n'. split; auto. split; auto. repeat split; auto.
-    intros c Hc. destruct (A8 c Hc) as (cn & cn' & B1 & B2 & B3 & B4). exists cn, cn'. repeat split; auto.
-    intros Ep Hrec. eapply Proj_kid; eauto. eapply thin_incl; eauto.
+  - intros i Hp. apply proj_node_sim; auto.
   - intros i n n' Hp Hn Hn' Hne Hc'. destruct (PK i Hp) as (Hri & Hai).
     destruct (KS i n Hp Hn Hne) as (it & Hit & Hkeep).
     assert (Reach w' (m_root x) i) as Hri' by (apply (Ex i Hri); exists g; auto).
@@ -272,6 +439,38 @@ Proof.
         unfold kids in Hcin. rewrite Hc' in Hcin. destruct Hcin.
     + pose proof (thin_data _ _ d Th Hit) as Hd. rewrite Hc' in Hd. destruct Hd.
   - constructor. destruct (root_node _ _ C Hxin) as (rn & k & Hrn & _). exists rn; auto.
+Qed.
+
+(* ... and ONLY then: when a written element of g loses its whole content the text gets strictly shorter *)
+Theorem remove_file_other_text_differs tab_el tab_at tab_en float_fmt : Attributed w (m_root x) g -> CharsLeaf T w ->
+  (exists i n, Proj T w (Some g) (m_root x) i /\ w_nodes w i = Some n /\ LosesAll w f n) ->
+  forall fuel indent inline s s',
+    ser_heap T tab_el tab_at tab_en float_fmt fuel w' (Some g) (m_root x) indent inline = Val s' ->
+    ser_heap T tab_el tab_at tab_en float_fmt fuel w (Some g) (m_root x) indent inline = Val s ->
+    (List.length s' < List.length s)%nat /\ s' <> s.
+Proof.
+  intros Hroot CL (i & n & Hp & Hn & Hne & Hall) fuel indent inline s s' Hs' Hs. pose proof TI as (C & _).
+  assert (In x (w_models w)) as Hxin by (unfold model_b in Hmx; rewrite nth_opt_error in Hmx; eapply nth_error_In; eauto).
+  destruct (remove_file_exact_full T m f w r w' x TI FI HK HU HL NS Hrun Hmx Hin) as ((C' & _) & Rt & NR & Ex).
+  assert (Proj T w (Some g) (m_root x) (m_root x)) as Hp0.
+  { constructor. destruct (root_node _ _ C Hxin) as (rn & k & Hrn & _). exists rn; auto. }
+  destruct (ser_heap_len T tab_el tab_at tab_en float_fmt w w' (Some g) (fun i => Proj T w (Some g) (m_root x) i) (recurses T)
+              (fun i Hi => proj_node_sim Hroot i Hi) (fun n0 H0 => H0) CL fuel (m_root x) Hp0 indent inline s s' Hs' Hs) as (_ & Hlt).
+  assert ((List.length s' < List.length s)%nat) as L.
+  { apply Hlt. exists i. split; auto.
+    assert (Reach w (m_root x) i) as Hri by (eapply proj_reach; eauto).
+    assert (Attributed w i g) as Hai by (eapply proj_attributed; eauto).
+    assert (Reach w' (m_root x) i) as Hri' by (apply (Ex i Hri); exists g; auto).
+    destruct (NR i n Hri Hri' Hn) as (n' & Hn' & _ & _ & _ & _ & _ & _ & Th).
+    exists n, n'. repeat split; auto.
+    destruct (n_content n') as [|it rest] eqn:Ec'; auto. exfalso.
+    assert (In it (n_content n)) as Hit by (eapply thin_items; eauto; left; reflexivity).
+    destruct (Hall it Hit) as (c & -> & Hno). apply Hno.
+    assert (lists w' i c) as Hl' by (exists n'; split; auto; unfold kids; rewrite Ec'; cbn; left; reflexivity).
+    assert (Reach w' (m_root x) c) as Hrc' by (eapply R_kid; eauto).
+    assert (Reach w (m_root x) c) as Hrc by (eapply R_kid; eauto; exists n; split; auto; apply in_elems; exact Hit).
+    apply (Ex c Hrc). exact Hrc'. }
+  split; auto. intros ->. lia.
 Qed.
 
 End Fixed.
